@@ -173,6 +173,22 @@ class State:
         self.solver.pop()
         return r != z3.unsat
 
+    def feasible_without_goals(self):
+        """is the path feasible on its OWN assumptions - leaving out the goals of earlier obligations, which are assumed
+        only to keep later obligations independent?  A path on which an obligation is certainly false must not look
+        infeasible because of that very obligation (it is the path the refutation lives on)."""
+        fs = [f for f in self.pc if f.get_id() not in self.goal_ids]
+        if len(fs) == len(self.pc):
+            return self.feasible()
+        saved, nadded = self.solver, self.nadded
+        try:
+            self.solver = z3.Solver()
+            self.solver.set('timeout', 3000)
+            self.solver.add(*fs)
+            return self._check() != z3.unsat
+        finally:
+            self.solver, self.nadded = saved, nadded
+
     def must(self, cond):
         """is cond implied by the path condition? (used for encoding side conditions)"""
         c = simplify(to_bool(cond)) if not isinstance(cond, bool) else BoolVal(cond)
